@@ -16,6 +16,8 @@ type Property struct {
 	Injects        []*Meta
 	Configurations map[string]any
 	args           TagArg
+	//path of the configuration value that was recorded last
+	lastConfiguration string
 }
 
 func NewProperty(field *Field, propType PropertyType, tag, tagVal string) *Property {
@@ -124,6 +126,14 @@ const (
 
 func (n *Property) SetConfiguration(path string, configValue any) {
 	n.Configurations[path] = configValue
+	n.lastConfiguration = path
+}
+
+// LastConfiguration returns the configuration value that was recorded last: for a tag that is exactly one
+// config quote this is the value of the quote itself (quotes nested in its key are resolved before it).
+func (n *Property) LastConfiguration() (any, bool) {
+	v, ok := n.Configurations[n.lastConfiguration]
+	return v, ok
 }
 
 func (n *Property) Unmarshall(configValue any) error {
